@@ -101,6 +101,18 @@ type EmbeddedUntagged struct {
 	Label string `yaml:"label"`
 }
 
+// a key that is one field's own key and another field's alias, and an alias two fields list: the
+// statement gives such a key to one place (the field whose tag names it, else the first field that
+// lists it); the library also fills the other claimant (open finding key-claimed-twice, witnessed in
+// bounded/findings), so the other claimant's value is not compared here - every other clause is
+// (seed C16k: the claimed keys counted with multiplicity, a leftover key lost)
+type Shared struct {
+	Name  string         `yaml:"name"`
+	Label string         `yaml:"label" aliases:"name,title"`
+	Desc  string         `yaml:"desc" aliases:"title"`
+	Rest  map[string]any `yaml:",inline"`
+}
+
 type family struct {
 	name      string
 	typ       reflect.Type
@@ -121,6 +133,7 @@ var families = []family{
 	{"EmbeddedExported", reflect.TypeOf(EmbeddedExported{}), map[string]any{"name": "llama", "count": 3, "label": "drama", "extra": "e", "base": "b"}, true},
 	{"EmbeddedUnexported", reflect.TypeOf(EmbeddedUnexported{}), map[string]any{"name": "llama", "count": 3, "label": "drama", "extra": "e", "base": "b"}, true},
 	{"EmbeddedUntagged", reflect.TypeOf(EmbeddedUntagged{}), map[string]any{"base": map[string]any{"name": "inner", "count": 2}, "name": "not a field here", "count": 5, "label": "drama", "extra": "e"}, true},
+	{"Shared", reflect.TypeOf(Shared{}), map[string]any{"name": "n", "label": "l", "title": "t", "desc": "d", "extra": "e", "more": 1, "": "empty"}, false},
 	{"InlineStruct", reflect.TypeOf(InlineStruct{}), map[string]any{"top": "t", "a": "str", "n": 7, "plain": "p", "extra": "e", "": "empty"}, false},
 }
 
@@ -198,6 +211,23 @@ func consume(t reflect.Type, doc map[string]any) (map[string]string, []string) {
 	}
 	sort.Strings(rest)
 	return by, rest
+}
+
+// claimedElsewhere: key is consumed by f through an alias although the statement gives it to another
+// field (one whose own key it is, or an earlier field that lists it).
+func claimedElsewhere(fields []fieldPlan, by map[string]string, f fieldPlan, key string) bool {
+	if key == f.primary {
+		return false
+	}
+	for _, g := range fields {
+		if fmt.Sprint(g.index) == fmt.Sprint(f.index) {
+			return false // f is the first claimant
+		}
+		if by[fmt.Sprint(g.index)] == key {
+			return true
+		}
+	}
+	return false
 }
 
 // toOrdered converts a plain document into the ordered form the decoder produces.
@@ -330,6 +360,9 @@ func TestC16(t *testing.T) {
 					}
 					continue
 				}
+				if claimedElsewhere(fields, by, f, key) {
+					continue // open finding key-claimed-twice
+				}
 				want := doc[key]
 				if got.Kind() == reflect.Struct || (got.Kind() == reflect.Pointer && got.Type().Elem().Kind() == reflect.Struct) {
 					continue // nested structs are families of their own; checked differentially below
@@ -375,6 +408,70 @@ func TestC16(t *testing.T) {
 						if _, ok := byN[fmt.Sprint(f.index)]; ok {
 							if got := z.Elem().FieldByIndex(f.index); !got.IsZero() {
 								fail("%s: null for field %s left %v, want the zero value", fam.name, fam.typ.FieldByIndex(f.index).Name, got.Interface())
+							}
+						}
+					}
+				}
+			}
+			// --- some keys null, the others not: a present key is consumed whether or not its value is
+			// null (a null primary key does not yield to an alias; seed C09k), null zeroes, the rest as above ---
+			if len(doc) > 1 && mask%3 == 0 {
+				md := map[string]any{}
+				for k, v := range doc {
+					if r.Intn(3) == 0 {
+						v = nil
+					}
+					md[k] = v
+				}
+				z := reflect.New(fam.typ)
+				sentinel(z.Elem())
+				if err := ordered.Unmarshal(toOrdered(md, r), z.Interface()); err != nil {
+					fail("%s mixed nulls %v: %v", fam.name, md, err)
+				} else {
+					cases++
+					byM, restM := consume(fam.typ, md)
+					for _, f := range fields {
+						got := z.Elem().FieldByIndex(f.index)
+						key, consumed := byM[fmt.Sprint(f.index)]
+						if !consumed {
+							if !reflect.DeepEqual(got.Interface(), before.Elem().FieldByIndex(f.index).Interface()) {
+								fail("%s %v: field %s changed to %v although none of its keys is present", fam.name, md, fam.typ.FieldByIndex(f.index).Name, got.Interface())
+							}
+							continue
+						}
+						if claimedElsewhere(fields, byM, f, key) {
+							continue
+						}
+						if md[key] == nil {
+							if !got.IsZero() {
+								fail("%s %v: field %s = %v, want the zero value (its key %q is null)", fam.name, md, fam.typ.FieldByIndex(f.index).Name, got.Interface(), key)
+							}
+							continue
+						}
+						if got.Kind() == reflect.Struct || (got.Kind() == reflect.Pointer && got.Type().Elem().Kind() == reflect.Struct) {
+							continue
+						}
+						g := got.Interface()
+						if sl, ok := g.([]string); ok && len(sl) > 0 && sl[0] == "SENTINEL" {
+							g = sl[1:]
+						}
+						if !reflect.DeepEqual(norm(g), norm(md[key])) {
+							fail("%s %v: field %s = %v, want the value of key %q = %v", fam.name, md, fam.typ.FieldByIndex(f.index).Name, g, key, md[key])
+						}
+					}
+					if inline != nil && fam.typ.FieldByIndex(inline).Type.Kind() == reflect.Map {
+						got := z.Elem().FieldByIndex(inline).Interface().(map[string]any)
+						var gk []string
+						for k := range got {
+							gk = append(gk, k)
+						}
+						sort.Strings(gk)
+						if !reflect.DeepEqual(gk, restM) && !(len(gk) == 0 && len(restM) == 0) {
+							fail("%s %v: inline field holds keys %q, want exactly the keys no field consumed %q", fam.name, md, gk, restM)
+						}
+						for _, k := range restM {
+							if !reflect.DeepEqual(norm(got[k]), norm(md[k])) {
+								fail("%s %v: inline[%q] = %v want %v", fam.name, md, k, got[k], md[k])
 							}
 						}
 					}
